@@ -1084,15 +1084,15 @@ theorem datetime_parse (cal : CalLaw) {us off : Int} (h : inDateRange (localOrd 
   rw [this]
 
 theorem umDatetime_rt (cal : CalLaw) (today : Int) {us off : Int} (h : inDateRange (localOrd us off) = true)
-    (hm : off % 60 = 0) (hlo : -86400 < off) (hhi : off < 86400) (hi : instantOk us = true) :
+    (hm : off % 60 = 0) (hlo : -86400 < off) (hhi : off < 86400) :
     umDatetime today (.str (datetimeText us off)) = .ok (.datetime us off) := by
-  simp [umDatetime, secondsOf?, textOf?, datetime_parse cal h hm hlo hhi, hi]
+  simp [umDatetime, secondsOf?, textOf?, datetime_parse cal h hm hlo hhi, h]
 
 /-! ### The leaf round-trip law for the temporal scalars of `pyLeaves` -/
 
-/-- The core scalars plus the temporal scalars whose text round trip holds for every valid value. -/
+/-- The core scalars plus the four temporal scalars. -/
 def S1 : Scalar → Bool
-  | .int | .bool | .float | .str | .date | .time | .timedelta => true
+  | .int | .bool | .float | .str | .date | .datetime | .time | .timedelta => true
   | _ => false
 
 theorem S1_of_S0 {s : Scalar} (h : S0 s = true) : S1 s = true := by
@@ -1119,16 +1119,13 @@ theorem timedelta_leaf_rt (env : Env) (today : Int) {us : Int} (h : tdOk us = tr
   ⟨.str (durText us), by simp [pyLeaves, pyMar, marTemporal, isoText],
     by simp only [pyLeaves, pyUm]; exact umTimedelta_rt h, rfl, by simp [decode]⟩
 
-/-- Datetimes: additionally the UTC instant itself must lie in year 1..9999 (the model's
-    `umDatetime` answers `unsupported` otherwise, see `datetime_leaf_rt_fails`). -/
 theorem datetime_leaf_rt (cal : CalLaw) (env : Env) (today : Int) {us off : Int}
-    (h : inDateRange (localOrd us off) = true) (hm : off % 60 = 0) (hlo : -86400 < off) (hhi : off < 86400)
-    (hi : instantOk us = true) :
+    (h : inDateRange (localOrd us off) = true) (hm : off % 60 = 0) (hlo : -86400 < off) (hhi : off < 86400) :
     ∃ m, (pyLeaves env today).mar .datetime (.datetime us off) = .ok m
       ∧ (pyLeaves env today).um .datetime m = .ok (.datetime us off)
       ∧ hashable m = true ∧ decode m ≠ .none :=
   ⟨.str (datetimeText us off), by simp [pyLeaves, pyMar, marTemporal, isoText],
-    by simp only [pyLeaves, pyUm]; exact umDatetime_rt cal today h hm hlo hhi hi, rfl, by simp [decode]⟩
+    by simp only [pyLeaves, pyUm]; exact umDatetime_rt cal today h hm hlo hhi, rfl, by simp [decode]⟩
 
 /-- `LeafLaws.rt` for `pyLeaves` on `S1`. -/
 theorem pyLeaves_rt_temporal (cal : CalLaw) (env : Env) (today : Int) : ∀ s v, S1 s = true → hasScalar s v = true →
@@ -1139,6 +1136,9 @@ theorem pyLeaves_rt_temporal (cal : CalLaw) (env : Env) (today : Int) : ∀ s v,
   · exact pyLeaves_rt env today s v h0 hv
   · cases s <;> simp [S1] at hs <;> simp [S0] at h0 <;> cases v <;> simp [hasScalar] at hv
     case date.date o => exact date_leaf_rt cal env today hv
+    case datetime.datetime us off =>
+      obtain ⟨⟨⟨h1, h2⟩, h3⟩, h4⟩ := hv
+      exact datetime_leaf_rt cal env today h1 h2 h3 h4
     case time.time us off =>
       cases off with
       | none => simp at hv
@@ -1147,5 +1147,15 @@ theorem pyLeaves_rt_temporal (cal : CalLaw) (env : Env) (today : Int) : ∀ s v,
         obtain ⟨⟨⟨h1, h2⟩, h3⟩, h4⟩ := hv
         exact time_leaf_rt env today h1 h2 h3 h4
     case timedelta.timedelta us => exact timedelta_leaf_rt env today hv
+
+/-- Pass-through: a valid value of a scalar type of `S1` is returned unchanged by its unmarshaller
+    (for the temporal unmarshallers: the first match arm, a value of the target class). -/
+theorem pyLeaves_pass_temporal (env : Env) (today : Int) : ∀ s v, S1 s = true → hasScalar s v = true →
+    (pyLeaves env today).um s v = .ok v := by
+  intro s v hs hv
+  by_cases h0 : S0 s = true
+  · exact pyLeaves_pass env today s v h0 hv
+  · cases s <;> simp [S1] at hs <;> simp [S0] at h0 <;> cases v <;> simp [hasScalar] at hv
+    all_goals simp [pyLeaves, pyUm, umDate, umDatetime, umTime, umTimedelta]
 
 end Typelib
